@@ -4,6 +4,7 @@ import (
 	"errors"
 	"fmt"
 	"net/http"
+	"regexp"
 	"runtime"
 	"strings"
 	"sync"
@@ -30,28 +31,32 @@ type cliWorld struct {
 	net *cliNet
 	c   *gohlslib.Client
 
-	mu          sync.Mutex
-	tracks      []*gohlslib.Track
-	onTracksN   int
-	deliveries  [][]cliDelivery // per track index
-	decodeErrs  []string
-	callbacks   int
-	cbAfterWait int
-	waitSeen    bool
-	waitErr     error
-	waitAt      time.Duration
-	waitExtra   int
-	onTracksErr error
-	closedAt    time.Duration
-	closeCalls  int
-	started     bool
-	limit       time.Duration
-	afterWait   time.Duration // how long to keep observing after Wait yielded
-	onEvent     func(ev int)  // called before each pump iteration with the event counter
-	events      int
-	stuckProbe  bool
-	stopWaiter  chan struct{}
-	closedFirst bool
+	mu            sync.Mutex
+	tracks        []*gohlslib.Track
+	onTracksN     int
+	deliveries    [][]cliDelivery // per track index
+	decodeErrs    []string
+	callbacks     int
+	cbAfterWait   int
+	waitSeen      bool
+	waitErr       error
+	waitAt        time.Duration
+	waitExtra     int
+	onTracksErr   error
+	onTracksDelay time.Duration // simulated time the user's OnTracks callback takes
+	closedAt      time.Duration
+	closeCalls    int
+	started       bool
+	limit         time.Duration
+	afterWait     time.Duration // how long to keep observing after Wait yielded
+	onEvent       func(ev int)  // called before each pump iteration with the event counter
+	events        int
+	stuckProbe    bool
+	stopWaiter    chan struct{}
+	closedFirst   bool
+	lastNow       time.Duration
+	lastReqs      int
+	zeroTimeReqs  int
 }
 
 func newCliWorld(r *Run, org origin, uri string, fate func(nr *netReq) *netFate) *cliWorld {
@@ -93,7 +98,11 @@ func (w *cliWorld) onTracks(tracks []*gohlslib.Track) error {
 	w.tracks = tracks
 	w.deliveries = make([][]cliDelivery, len(tracks))
 	err := w.onTracksErr
+	delay := w.onTracksDelay
 	w.mu.Unlock()
+	if delay > 0 {
+		time.Sleep(delay) // simulated: faults and Close can land while the callback executes
+	}
 	for i, t := range tracks {
 		i, t := i, t
 		rec := func(pts, dts int64, hasDTS bool, data [][]byte) {
@@ -181,6 +190,18 @@ func (w *cliWorld) run() {
 		w.pollWait()
 		w.r.Step()
 		now := w.r.Now()
+		// a client that keeps issuing requests without any simulated time passing is busy-looping
+		if now == w.lastNow && len(w.net.log) > w.lastReqs {
+			w.zeroTimeReqs += len(w.net.log) - w.lastReqs
+		} else if now != w.lastNow {
+			w.zeroTimeReqs = 0
+		}
+		w.lastNow, w.lastReqs = now, len(w.net.log)
+		if w.zeroTimeReqs > 3000 {
+			last := w.net.log[len(w.net.log)-1]
+			w.r.Fail("busy-loop", "requests-without-time", "the client issued %d requests without any simulated time passing (last: %s)", w.zeroTimeReqs, last.url)
+			break
+		}
 		end := w.limit
 		if w.waitSeen && w.waitAt+w.afterWait < end {
 			end = w.waitAt + w.afterWait
@@ -197,15 +218,20 @@ func (w *cliWorld) run() {
 	w.pollWait()
 }
 
-// clientGoroutines returns the stacks of goroutines that are executing gohlslib client code.
+var muxerFrame = regexp.MustCompile(`gohlslib/v2\.\(\*[mM]uxer`)
+
+// clientGoroutines returns the stacks of goroutines that are executing gohlslib client code: any goroutine
+// with a frame of package gohlslib that is not a muxer frame (helper goroutines started by the client outside
+// its routine pool count too).
 func clientGoroutines() []string {
 	buf := make([]byte, 1<<20)
 	n := runtime.Stack(buf, true)
 	var out []string
 	for _, g := range strings.Split(string(buf[:n]), "\n\n") {
-		if strings.Contains(g, "gohlslib/v2.(*client") || strings.Contains(g, "gohlslib/v2.(*Client).run") {
-			out = append(out, g)
+		if !strings.Contains(g, "github.com/bluenviron/gohlslib/v2.") || muxerFrame.MatchString(g) {
+			continue
 		}
+		out = append(out, g)
 	}
 	return out
 }
